@@ -410,7 +410,7 @@ func runFlow(w *World, rs *RunSpec) {
 					}
 					ops = append(ops, Op{Kind: OpPause, N: 810}, Op{Kind: OpRecvAll})
 					p.CallerRecv = ops
-					p.pausedReader = true
+					p.pausedReader, p.pausedSide = true, "caller"
 					if c.Intn(3, "cancelstalled") == 0 {
 						p.cancelWhenStalled = "caller-paused"
 					}
@@ -418,10 +418,15 @@ func runFlow(w *World, rs *RunSpec) {
 			case 2: // handler's reader parks until released
 				if shapeClientStreams(p.Shape) && len(p.HandlerSend) == 0 {
 					p.Handler = append([]Op{{Kind: OpPause, N: 810}}, p.Handler...)
-					p.pausedReader = true
+					p.pausedReader, p.pausedSide = true, "handler"
 					if c.Intn(3, "cancelstalled") == 0 {
 						p.cancelWhenStalled = "handler-paused"
 					}
+				} else if shapeClientStreams(p.Shape) {
+					// a full-duplex handler (one goroutine reads, another sends)
+					// whose reading goroutine parks: its responses keep flowing
+					p.Handler = append([]Op{{Kind: OpPause, N: 810}}, p.Handler...)
+					p.pausedReader, p.pausedSide = true, "handler-duplex"
 				}
 			case 3:
 				p.CallerRecv = append([]Op{{Kind: OpSleep, D: time.Duration(1+c.Intn(20, "nap")) * time.Millisecond}}, p.CallerRecv...)
@@ -434,6 +439,8 @@ func runFlow(w *World, rs *RunSpec) {
 		d := planDesc(p)
 		if p.pausedReader {
 			d["paused_reader"] = true
+			d["paused_side"] = p.pausedSide
+			d["duplex_handler"] = len(p.HandlerSend) > 0
 		}
 		if p.cancelWhenStalled != "" {
 			d["cancelled_when_stalled"] = p.cancelWhenStalled
@@ -523,6 +530,33 @@ func OracleFlowDone(w *World, h *History) {
 				for _, o := range r.Ops {
 					if (o.Actor == "cs" || o.Actor == "c") && o.Inv < settled && (!o.Returned() || o.Ret > settled) {
 						w.AddViolation("C05", "strand-after-cancel", fmt.Sprintf("rpc %d was cancelled while its caller waited for flow-control credit in %s; everything settled (#%d) and the caller is still blocked", id, opNames[o.Op], settled), det, settled)
+					}
+				}
+			}
+		}
+		// The two directions of a stream have their own windows: while one
+		// consumer is parked, the other direction - whose consumer keeps
+		// reading from a goroutine of its own - must still drain.
+		if stall != 0 && r.Plan.pausedReader && len(r.Plan.HandlerSend) > 0 {
+			switch r.Plan.pausedSide {
+			case "caller":
+				// caller's reader parked, full-duplex handler: the requests go through
+				h.Derived["probe.other_direction_while_parked"]++
+				for _, o := range r.Ops {
+					if o.Actor == "cs" && (o.Op == OpSend || o.Op == OpCloseSend) && o.Inv < stall && (!o.Returned() || o.Ret > stall) {
+						w.AddViolation("C05", "strand-other-direction", fmt.Sprintf("rpc %d: the caller's %s[%d] had not returned when the run stalled (#%d) although the handler reads requests in a goroutine of its own; only the caller's reader is parked, which concerns the responses", id, opNames[o.Op], o.Idx, stall),
+							map[string]string{"where": "tunnel", "parked": "caller-reader", "blocked": "caller-sender"}, stall)
+						break
+					}
+				}
+			case "handler-duplex":
+				// handler's reader parked, its sender runs: the responses go through
+				h.Derived["probe.other_direction_while_parked"]++
+				for _, o := range r.Ops {
+					if o.Actor == "hs" && o.Op == OpSend && o.Inv < stall && (!o.Returned() || o.Ret > stall) {
+						w.AddViolation("C05", "strand-other-direction", fmt.Sprintf("rpc %d: the handler's send[%d] had not returned when the run stalled (#%d) although the caller reads responses in a goroutine of its own; only the handler's reader is parked, which concerns the requests", id, o.Idx, stall),
+							map[string]string{"where": "tunnel", "parked": "handler-reader", "blocked": "handler-sender"}, stall)
+						break
 					}
 				}
 			}
